@@ -770,11 +770,11 @@ def run(ctx, prop):
         if last["open"] and not newsel:
             # unreadable in part - but when workspace calls of the reference are gone from the WHOLE function and other workspace
             # calls took their place, the value is computed from other ingredients (not a std-level rewrite, not an extraction)
-            ref_calls = {i for v in rsk.values() for i in v if i.startswith("call:")}
-            ref_calls = {i.split("=", 1)[-1] for i in ref_calls} | {i.split("=", 1)[-1] for v in rsk.values() for i in v if "=call:" in i}
+            # (direct calls, not read through: the table records the callees of the reference rows by their full names)
+            ref_calls = {"call:%s" % _short(c) for c in e.get("calls", []) if not _is_std(c)}
             cur_all = set(census_of(ctx, fs[0]))
-            cur_rows = {i.split("=", 1)[-1] for v in sk.values() for i in v if "call:" in i}
-            gone = sorted(c for c in ref_calls if c not in cur_all)
+            cur_rows = {"call:%s" % _short(c) for c in calls if not _is_std(c)}
+            gone = sorted(c for c in ref_calls if c not in cur_all and c not in cur_rows)
             came = sorted(c for c in cur_rows if c not in ref_calls)
             if gone and came:
                 ctx.ob(R, key, False, "%s deviates from its reference meaning (%s): the calls %s of the reference are gone from the function and %s are used instead" % (_short(q), e["why"], gone, came), f.loc())
